@@ -22,3 +22,19 @@ JOBS['C16'] = [
     {'name': 'uc_nav', 'harness': 'c16_uc.c', 'units': ['uc'],
      'defs': {'quick': {'N': 5}, 'thorough': {'N': 7}}, 'nslices': {'quick': 16, 'thorough': 32}, 'split_depth': 5},
 ]
+
+# ---------------------------------------------------------------- C12
+META['C12'] = {
+    'bounds': {'quick': 'all simple patterns ^? \\<? literal(<=2 chars) \\>? $? x all newline-terminated lines <=3 chars over {a A _ - space, U+00E9} x icase x notbol x noteol; classifier: all pattern strings <=3 bytes over 20 literal/operator characters',
+               'thorough': 'literal <=3 chars, lines <=4 chars; classifier: all strings <=4 bytes'},
+    'outside': 'longer literals/lines; lines not ending in a newline (excluded by the property); alphabets beyond the listed characters (bytes are only compared for equality, class membership [A-Za-z0-9_] and >127)',
+    'assumptions': ['pattern and line characters come from the stated class lists'],
+}
+JOBS['C12'] = [
+    {'name': 'lit_equiv', 'harness': 'c12_lit.c', 'units': ['rstr', 'rset', 'regex', 'sbuf', 'uc'],
+     'defs': {'quick': {'PL': 2, 'LL': 3}, 'thorough': {'PL': 3, 'LL': 4}}, 'split_depth': 7,
+     'nslices': {'quick': 32, 'thorough': 64}, 'expect_reach': ['end', 'found', 'notfound']},
+    {'name': 'classifier', 'harness': 'c12_cls.c', 'units': ['rset', 'regex', 'sbuf', 'uc'],
+     'defs': {'quick': {'PN': 3, 'LL': 3}, 'thorough': {'PN': 4, 'LL': 3}}, 'split_depth': 4,
+     'nslices': {'quick': 32, 'thorough': 64}, 'expect_reach': ['end', 'literal', 'general']},
+]
